@@ -157,8 +157,31 @@ func runPlaceSuite(seed uint64, n int, out *Out, stats *Stats) {
 			}
 			return c
 		}
-		kind := i % 5
+		kind := i % 6
 		switch kind {
+		case 5:
+			// as placement 4, with a pooled transaction that the adopted chain has already confirmed:
+			// the tick rejects it, builds its block and is refused by AddBlock; the pool must not
+			// keep any trace of the block that was never added
+			helper := NewNode(set, w.wallets[1].Addr)
+			helper.Pool.Validate(nd.Chain.FirstBlockTimestamp())
+			helperSync(helper, w.now, []*Peer{honestPeer("10.6.0.1:10600", nd)})
+			helper.Pool.AddTransaction(txs[0], "a", "b")
+			helper.Pool.Validate(w.now + set.Interval)
+			helper.Pool.Validate(w.now + 2*set.Interval)
+			nd.Pool.AddTransaction(txs[0], "mine", "h")
+			nd.Pool.AddTransaction(txs[1], "mine", "h")
+			if len(txs) > 2 && i%4 >= 2 {
+				nd.Pool.AddTransaction(txs[2], "mine", "h")
+			}
+			hu.onCopy = func() {
+				p := honestPeer("10.6.0.2:10600", helper)
+				nd.Senders.Set([]application.Sender{&FakeSender{target: p.Target, getBlocks: p.Serve}})
+				nd.Chain.Update(w.now + 2*set.Interval)
+				nd.Senders.Set(nil)
+			}
+			nd.Pool.Validate(w.now + set.Interval)
+			stats.Count("place/sync-confirms-pooled-inside-tick")
 		case 4:
 			// a sync round placed inside a production tick before the block is built: the tick has read
 			// the tip, the round then adopts a longer chain, the tick goes on
@@ -166,7 +189,7 @@ func runPlaceSuite(seed uint64, n int, out *Out, stats *Stats) {
 			helper.Pool.Validate(nd.Chain.FirstBlockTimestamp())
 			helperSync(helper, w.now, []*Peer{honestPeer("10.6.0.1:10600", nd)})
 			helper.Pool.Validate(w.now + set.Interval)
-			if i%2 == 0 {
+			if (i/6)%2 == 0 {
 				helper.Pool.Validate(w.now + 2*set.Interval)
 			}
 			nd.Pool.AddTransaction(txs[0], "mine", "h")
@@ -279,11 +302,16 @@ func runPlaceSuite(seed uint64, n int, out *Out, stats *Stats) {
 		blocks := nd.AllBlocks()
 		mon.CheckChain(blocks, "after the placement")
 		mon.CheckDerived(nd, blocks, univ, "after the placement")
+		submitted := map[string]bool{}
+		for _, t := range txs {
+			submitted[t.Id()] = true
+		}
+		mon.CheckPool(nd.Pool.Transactions(), submitted, "after the placement")
 		if out.Violations > before {
-			out.Violation("C16", id, fmt.Sprintf("quiescent-state:%s\tafter the placement the node violates C01-C07 (see the lines above for this case)", []string{"submit-inside-tick", "tick-inside-sync", "sync-inside-addblock", "two-ticks-inside-sync", "sync-inside-tick-before-block"}[kind]))
+			out.Violation("C16", id, fmt.Sprintf("quiescent-state:%s\tafter the placement the node violates C01-C07 (see the lines above for this case)", []string{"submit-inside-tick", "tick-inside-sync", "sync-inside-addblock", "two-ticks-inside-sync", "sync-inside-tick-before-block", "sync-confirms-pooled-inside-tick"}[kind]))
 		}
 		stats.Mark(fmt.Sprintf("%d/%d/%d", kind, len(blocks), len(nd.Pool.Transactions())))
-		stats.Sample(fmt.Sprintf("%s: placement %s; chain of %d blocks, pool of %d afterwards", id, []string{"submission inside a production tick (at AddBlock)", "production tick inside a sync round (at the registry copy of verify)", "sync round inside a production tick (when AddBlock consults the registry)", "two production ticks inside one sync round", "sync round inside a production tick, after the tick read the tip"}[kind], len(blocks), len(nd.Pool.Transactions())))
+		stats.Sample(fmt.Sprintf("%s: placement %s; chain of %d blocks, pool of %d afterwards", id, []string{"submission inside a production tick (at AddBlock)", "production tick inside a sync round (at the registry copy of verify)", "sync round inside a production tick (when AddBlock consults the registry)", "two production ticks inside one sync round", "sync round inside a production tick, after the tick read the tip", "sync round confirming a pooled transaction inside a production tick"}[kind], len(blocks), len(nd.Pool.Transactions())))
 		stats.Cases++
 		stats.Ops += 2
 	}
